@@ -95,7 +95,9 @@ func c18GenSchemaX(r *core.Rng, rich bool) (*yang.Stmt, *snode) {
 				s.Add(yang.S("type", "string"))
 				sn.vals, sn.typeName = []string{"a\"b", "<tag> & 'x'", "back\\slash", "tab\there", "nl\nx", "é日😀", " lead", "trail ", "]]>", "{\"k\":1}", "", "null", "true", "12",
 					// legal characters that Go regards as non-printable (a Go-syntax quoting of them is not JSON)
-					"del\x7fx", "tag\U000E0001x", "nbsp\u00a0x", "zw\u200bx", "\ufeffbom", "c1\u0085x", "ls\u2028x"}, "string"
+					"del\x7fx", "tag\U000E0001x", "nbsp\u00a0x", "zw\u200bx", "\ufeffbom", "c1\u0085x", "ls\u2028x",
+					// the replacement character is a character like any other when it is spelt out in the text
+					"caf\ufffd du nord", "\ufffd"}, "string"
 			default:
 				s.Add(yang.S("type", "int32"))
 				sn.vals, sn.typeName = []string{"-2147483648", "2147483647", "0", "42", "+42", "-007", "-0"}, "int32"
